@@ -221,10 +221,21 @@ def regime_assumptions(ft, var, lo, hi, extra=None):
         if d[0] != "bin" or d[1] not in CMP:
             continue
         op, x, y = d[1], strip_site(d[2]), strip_site(d[3])
-        if x == var and is_const(d[3]) and const_int(d[3]) is not None:
-            c = const_int(d[3])
-        elif y == var and is_const(d[2]) and const_int(d[2]) is not None:
-            c = const_int(d[2])
+
+        def closed(t):
+            # value of a constant expression (FIRST_HILBERT_RESOLUTION - 1, ...)
+            if is_const(t):
+                return const_int(t)
+            if any(z[0] in ("param", "phi", "call", "field", "payload", "escaped") for z in walk(t)):
+                return None
+            try:
+                return ieval(ft, t, {})
+            except Undetermined:
+                return None
+        if x == var and closed(d[3]) is not None:
+            c = closed(d[3])
+        elif y == var and closed(d[2]) is not None:
+            c = closed(d[2])
             op = SWAP[op]
         else:
             continue
@@ -272,7 +283,25 @@ def deep_resolve(ft, t, assume, memo=None, depth=0):
         r = mk_deref(deep_resolve(ft, t[1], assume, memo, depth + 1))
     elif tag == "field":
         from .terms import mk_field
-        r = mk_field(deep_resolve(ft, t[1], assume, memo, depth + 1), t[2], t[2] if isinstance(t[2], int) else None)
+        r = mk_field(deep_resolve(ft, t[1], assume, memo, depth + 1), t[2], t[2] if isinstance(t[2], int) else (int(t[2]) if str(t[2]).isdigit() else None))
+    elif tag == "payload":
+        # payload of a constructor that became visible once the join was resolved: Ok(x)? is x
+        inner = deep_resolve(ft, t[2], assume, memo, depth + 1)
+        if inner[0] == "agg" and inner[1] == "adt" and inner[2].endswith("::" + t[1]) and len(inner[3]) == 1:
+            r = inner[3][0]
+        elif inner[0] == "phi" and inner[1] == ft.path:
+            # still a join: of the values feasible under the assumptions, only constructors of this variant can be meant
+            lv = leaves_under(ft, inner, assume)
+            same = [l for l in lv if l[0] == "agg" and l[1] == "adt" and l[2].endswith("::" + t[1]) and len(l[3]) == 1]
+            rest = [l for l in lv if l not in same]
+            other_variant = all((l[0] == "agg" and l[1] == "adt" and l[2].rsplit("::", 1)[-1] in ("Ok", "Err", "Some", "None")) or
+                                (l[0] == "call" and isinstance(l[1], str) and l[1].endswith("::from_residual")) for l in rest)
+            if len(same) == 1 and other_variant:
+                r = deep_resolve(ft, same[0][3][0], assume, memo, depth + 1)
+            else:
+                r = ("payload", t[1], inner)
+        else:
+            r = ("payload", t[1], inner)
     else:
         r = tuple(deep_resolve(ft, x, assume, memo, depth + 1) if isinstance(x, tuple) else x for x in t)
     memo[k] = r
@@ -582,6 +611,17 @@ def ieval(ft, t, env, assume=None, _nested=False):
         if name in ft.facts.fns:
             return call_eval(ft.facts, name, args)
         raise Undetermined(name)
+    if tag == "agg" and t[1] == "adt" and not t[3]:
+        # a field-less enum value: its discriminant
+        adt_path, vname = t[2].rsplit("::", 1)
+        adt = ft.facts.adts.get(adt_path)
+        if adt is not None and adt["kind"] == "Enum":
+            for v in adt["variants"]:
+                if v["name"] == vname:
+                    return int(v["discr"])
+        raise Undetermined("enum " + t[2])
+    if tag == "discr":
+        return ieval(ft, t[1], env, assume, _nested)
     if tag == "phi":
         r = resolve_under(ft, t, assume)
         if r is None and not _nested:
@@ -1067,7 +1107,29 @@ def option_default(ft, t):
     if x[0] == "call" and isinstance(x[1], str) and x[2]:
         short = x[1].split("::")[-1]
         if short in ("unwrap_or", "unwrap_or_else") and len(x[2]) == 2 and "Option" in x[1]:
-            return x[2][0], x[2][1]
+            dflt = x[2][1]
+            c_ = dflt
+            while c_[0] in ("ref", "deref"):
+                c_ = c_[2] if c_[0] == "ref" else c_[1]
+            if short == "unwrap_or_else" and c_[0] == "agg" and c_[1] == "closure" and c_[2] in ft.facts.fns:
+                # the lazily computed default: what the closure returns, captured variables read where it is created
+                fcl = fn_terms(ft.facts, c_[2])
+                rbs = fcl.return_blocks()
+                if len(rbs) == 1:
+                    m = {}
+                    for i_, cv in enumerate(c_[3]):
+                        m[("field", ("deref", ("param", 1)), i_)] = cv
+                        m[("field", ("param", 1), i_)] = cv
+                    v = subst_terms(strip_site(fcl.return_term(rbs[0])), m)
+
+                    def collapse(t_):
+                        if not isinstance(t_, tuple) or not t_:
+                            return t_
+                        if t_[0] == "deref" and isinstance(t_[1], tuple) and t_[1] and t_[1][0] == "ref":
+                            return collapse(t_[1][2])
+                        return tuple(collapse(y_) for y_ in t_)
+                    dflt = collapse(v)
+            return x[2][0], dflt
         if short == "unwrap_or_default" and "Option" in x[1]:
             return x[2][0], None
     if x[0] == "phi" and x[1] == ft.path:
@@ -1103,6 +1165,23 @@ def seq_nth(ft, src, depth=0):
         if short == "enumerate":
             r = seq_nth(ft, x[2][0], depth + 1)
             return None if r is None else (("agg", "tuple", "", (KSYM, r[0]), ()), r[1])
+        if short == "map" and len(x[2]) == 2:
+            r = seq_nth(ft, x[2][0], depth + 1)
+            clos = x[2][1]
+            while clos[0] in ("ref", "deref"):
+                clos = clos[2] if clos[0] == "ref" else clos[1]
+            if r is None:
+                return None
+            if clos[0] == "fnref":
+                return ("call", clos[1], (r[0],), None), r[1]
+            if clos[0] != "agg" or clos[1] != "closure" or clos[2] not in ft.facts.fns:
+                return None
+            fcl = fn_terms(ft.facts, clos[2])
+            rbs = fcl.return_blocks()
+            if len(rbs) != 1:
+                return None
+            body = closure_subst_caps(clos[3], fcl.return_term(rbs[0]))
+            return subst_terms(body, {("param", 2): r[0]}), r[1]
         if short == "zip" and len(x[2]) == 2:
             r1, r2 = seq_nth(ft, x[2][0], depth + 1), seq_nth(ft, x[2][1], depth + 1)
             if r1 is None or r2 is None:
@@ -1276,3 +1355,30 @@ def pipe_item(facts, ft, src, space=None, depth=0, counter=None):
                 return None
             return r2[0], gens + r2[1], ads + r2[2] + ["flat_map"]
     return None
+
+
+
+def simplify_payloads(t):
+    """payload(V, V(x)) -> x everywhere (constructor and projection that meet after substitution / splicing)"""
+    if not isinstance(t, tuple) or not t:
+        return t
+    if t[0] == "payload" and isinstance(t[2], tuple) and t[2] and t[2][0] == "agg" and t[2][1] == "adt" and isinstance(t[2][2], str) \
+            and t[2][2].endswith("::" + t[1]) and len(t[2][3]) == 1:
+        return simplify_payloads(t[2][3][0])
+    return tuple(simplify_payloads(x) for x in t)
+
+
+def closure_subst_caps(caps, t):
+    """closure-body term -> term of the function in which the closure aggregate `caps` (its captured operands) was found"""
+    m = {}
+    for i_, cv in enumerate(caps):
+        m[("field", ("deref", ("param", 1)), i_)] = cv
+        m[("field", ("param", 1), i_)] = cv
+
+    def collapse(t_):
+        if not isinstance(t_, tuple) or not t_:
+            return t_
+        if t_[0] == "deref" and isinstance(t_[1], tuple) and t_[1] and t_[1][0] == "ref":
+            return collapse(t_[1][2])
+        return tuple(collapse(y_) for y_ in t_)
+    return collapse(subst_terms(strip_site(t), m))
